@@ -298,3 +298,131 @@ func VerifHarness_C12_O3() {
 	}
 	verifReach("end")
 }
+
+// C14/O2 (= C12/O4) — a stranger set hidden in the frame's validator-set
+// HISTORY.  The frame's Peers are the validators the node knows ({0,1,2}); its
+// PeerSets history additionally carries (or consists of) a set of strangers at
+// a round below / at / above the frame's round; the block commits (PeersHash)
+// either to the frame's Peers or to the hidden set; every key of {0,1,2,8,9}
+// may sign, with symbolic validity.  Adopted => the block commits to the
+// frame's own validator set and a validator the node knows signed validly.
+func VerifHarness_C14_O2() {
+	vc := verifNewCore(3, 0)
+	vc.seedHistory()
+	members := []*peers.Peer{verifPeer(0), verifPeer(1), verifPeer(2)}
+	var hidden []*peers.Peer
+	switch verifChoice("hiddenSet", 3) {
+	case 0:
+		hidden = []*peers.Peer{verifPeer(8)}
+	case 1:
+		hidden = []*peers.Peer{verifPeer(8), verifPeer(9)}
+	default:
+		hidden = []*peers.Peer{verifPeer(0), verifPeer(8), verifPeer(9)}
+	}
+	frame := verifMkFrame(members, 5)
+	switch verifChoice("history", 4) {
+	case 0:
+		frame.PeerSets = map[int][]*peers.Peer{0: members, 3: hidden}
+	case 1:
+		frame.PeerSets = map[int][]*peers.Peer{0: members, 5: hidden}
+	case 2:
+		frame.PeerSets = map[int][]*peers.Peer{0: members, 7: hidden}
+	default:
+		frame.PeerSets = map[int][]*peers.Peer{0: hidden}
+	}
+	frameHash, _ := frame.Hash()
+	commitToHidden := verifChoice("blockCommitsToTheHiddenSet", 2) == 1
+	commit := members
+	if commitToHidden {
+		commit = hidden
+	}
+	block := hg.NewBlock(3, 5, frameHash, commit, [][]byte{[]byte("forged")}, nil, 77)
+	digest, _ := block.Body.Hash()
+	knownValid := 0
+	for _, id := range []int{0, 1, 2, 8, 9} {
+		signs := verifNondetBool(fmt.Sprintf("signs%d", id))
+		ok := verifNondetBool(fmt.Sprintf("ok%d", id))
+		k := verifKey(id)
+		if signs {
+			block.Signatures[keys.PublicKeyHex(&k.PublicKey)] = verifSignature(k, digest, ok)
+		}
+		if signs && ok && id < 3 {
+			knownValid++
+		}
+	}
+	before := vc.digest()
+	err := vc.c.fastForward(block, frame)
+	if err != nil {
+		verifAssert("refused-snapshot-leaves-validators-and-node-untouched", verifCoreDigestEq(before, vc.digest()))
+	} else {
+		verifAssert("adopted-block-commits-to-the-frames-validator-set-not-to-a-set-hidden-in-its-history", !commitToHidden)
+		verifAssert("adopted-snapshot-signed-by-more-than-a-third-of-the-known-validators", 3*knownValid > 3)
+		verifAssert("adopted-validators-are-the-frames-validator-set", len(vc.c.validators.Peers) == 3)
+		verifReach("honest-frame-with-a-longer-history-adopted")
+	}
+	verifReach("end")
+}
+
+func VerifHarness_C12_O4() { VerifHarness_C14_O2() }
+
+// C14/O3 (= C12/O5) — node-level flow with SEVERAL responders.  Real
+// Node.fastForward / getBestFastForwardResponse over a harness transport: the
+// two other validators each answer (or not) with a response that is honest
+// (signed by validators 1 and 2, symbolic validity), or forged (same frame
+// validator set, block signed by a stranger only), at distinct block indexes in
+// either order.  Adopted => the adopted block is a response that more than a
+// third of the known validators signed validly; refused => node and application
+// untouched.
+func VerifHarness_C14_O3() {
+	tr := &verifTransport{consumer: make(chan net.RPC), ff: map[string]*net.FastForwardResponse{}}
+	vn := verifNewNodeT(3, 0, 1000, tr)
+	n := vn.n
+	n.SetState(state.CatchingUp)
+	members := vn.peers
+	// block indexes of responder 1 / responder 2
+	idx := [][2]int{{3, 4}, {4, 3}}[verifChoice("higherBlockFrom", 2)]
+	validCount := map[int]int{}
+	forged := map[int]bool{}
+	for r := 1; r <= 2; r++ {
+		kind := verifChoice(fmt.Sprintf("responder%d", r), 3)
+		if kind == 2 {
+			continue // no answer
+		}
+		frame := verifMkFrame(members, 5+idx[r-1])
+		frameHash, _ := frame.Hash()
+		block := hg.NewBlock(idx[r-1], 5+idx[r-1], frameHash, members, [][]byte{[]byte("tx")}, nil, 77)
+		digest, _ := block.Body.Hash()
+		if kind == 0 {
+			for i := 1; i < 3; i++ {
+				k := verifKey(i)
+				ok := verifNondetBool(fmt.Sprintf("r%dok%d", r, i))
+				block.Signatures[keys.PublicKeyHex(&k.PublicKey)] = verifSignature(k, digest, ok)
+				if ok {
+					validCount[idx[r-1]]++
+				}
+			}
+		} else {
+			k := verifKey(8)
+			block.Signatures[keys.PublicKeyHex(&k.PublicKey)] = verifSignature(k, digest, true)
+			forged[idx[r-1]] = true
+		}
+		tr.ff[members[r].NetAddr] = &net.FastForwardResponse{FromID: members[r].ID(), Block: *block, Frame: *frame, Snapshot: []byte("snapshot")}
+	}
+	before := vn.digest()
+	err := n.fastForward()
+	if err != nil {
+		verifAssert("refused-responses-leave-the-application-untouched", vn.proxy.restored == 0)
+		after := vn.digest()
+		after.ints[len(after.ints)-1] = before.ints[len(before.ints)-1]
+		verifAssert("refused-responses-leave-the-node-untouched", verifNodeDigestEq(before, after))
+	} else {
+		adopted := vn.store.LastBlockIndex()
+		verifAssert("adopted-block-is-one-of-the-responses", adopted == 3 || adopted == 4)
+		verifAssert("adopted-response-is-not-the-stranger-signed-one", !forged[adopted])
+		verifAssert("adopted-response-signed-by-more-than-a-third-of-the-known-validators", 3*validCount[adopted] > 3)
+		verifReach("an-honest-response-adopted-among-several")
+	}
+	verifReach("end")
+}
+
+func VerifHarness_C12_O5() { VerifHarness_C14_O3() }
